@@ -728,12 +728,12 @@ Proof.
     - destruct (not_present_insert _ _ _ _) as [? ?]. intros E; inversion E; exact I. }
   destruct (st_insert a av ent v (se_cx e)) as [[a1 r] c1] eqn:Es. specialize (Hne r c1 a1 eq_refl).
   destruct X as [_ [[_ [m' [Hm' _]]] [X3 _]]].
-  destruct (IH (env_put e sid a1 (match r with InsErr _ => cx_fail c1 | _ => c1 end)) av ent) as [I1 [I2 I3]].
+  destruct (IH (env_put e sid a1 (match r with InsErr _ => cx_fail c1 | InsOld t => cx_drop c1 t | _ => c1 end)) av ent) as [I1 [I2 I3]].
   - apply EInv_put; eauto.
   - assumption.
   - intros j w Hj. cbn [env_put se_stores]. rewrite find_add. destruct (N.eq_dec sid j); [discriminate|].
     apply (Hreg j w). right. assumption.
   - split; [assumption|]. split.
-    + rewrite I2. cbn [env_put se_cx]. destruct r; try contradiction; assumption.
+    + rewrite I2. cbn [env_put se_cx]. destruct r; try contradiction; cbn [cx_drop cx_stuck]; assumption.
     + intros j Hj. apply I3. cbn [env_put se_stores]. rewrite find_add. destruct (N.eq_dec sid j); [discriminate|assumption].
 Qed.
